@@ -4,7 +4,7 @@
    [bind q s x] is DNA.use_spec (None = ValueError) returning the DNA with the specification node bound to every
    node; [aligned q s b] says every node of b is bound to the decision point of its own position. *)
 From PG Require Import Common.Tactics Model.Geno Model.GenoViews Proofs.GenoBasics Proofs.GenoValid Proofs.GenoNext
-  Proofs.GenoConcrete Proofs.GenoViewsProofs Proofs.GenoDict Proofs.GenoExamples.
+  Proofs.GenoConcrete Proofs.GenoViewsProofs Proofs.GenoDict Proofs.GenoLookup Proofs.GenoExamples.
 
 (* flat numbers: from_numbers (to_numbers d) gives the DNA back, bound and aligned *)
 Theorem C12_numbers_roundtrip : forall q s d, wf s = true -> valid s d = true ->
@@ -109,3 +109,23 @@ Theorem C12_lookup_partial : forall q s sd vt b, wf s = true -> valid s sd = tru
   = Some (DS (leaf1 (decision_points s) vt e)).
 Proof. intros q s sd vt b Hwf Hv Hvt Hid Hb. exact (to_dict_reports q s sd vt b Hwf Hv Hvt Hid Hb). Qed.
 Print Assumptions C12_lookup_partial.
+
+(* to_dict for EVERY key / value / multi-choice-key style is the fold of the body of _dump_node over the decision nodes
+   of the structured decision, each taken at the address of its own position *)
+Theorem C12_to_dict_is_fold_over_decisions : forall q s sd kt vt m b, wf s = true -> valid s sd = true ->
+  bind q s (normalize sd) = Some b ->
+  to_dict (decision_points s) kt vt m false b = putns (decision_points s) kt vt m (nodes s [] sd) [].
+Proof. exact to_dict_nodes. Qed.
+Print Assumptions C12_to_dict_is_fold_over_decisions.
+
+(* DNA.__getitem__ by decision point / by id (= _decision_by_id[dp.id], the ('id', 'dna', 'both', include_inactive) view):
+   for EVERY decision point of the specification the lookup returns the decision node sitting at that decision point's
+   own position, and None when the decision point is inactive.  ids_ok: ids pairwise different and no decision point
+   carries the id of a multi-choice parent. *)
+Theorem C12_lookup : forall q s sd b, wf s = true -> valid s sd = true -> ids_ok s ->
+  bind q s (normalize sd) = Some b ->
+  forall i, In i (decision_points s) ->
+  dget (decision_by_id (decision_points s) b) (DKId (i_id i)) =
+  Some (DS (match node_at (nodes s [] sd) (i_addr i) with Some n => LfDna n | None => LfNone end)).
+Proof. exact lookup_by_id. Qed.
+Print Assumptions C12_lookup.
